@@ -20,6 +20,12 @@ def _tree_event(T, ev):
     e["parent"] = [-1 if p is None else int(p) for p in T.parent]
     e["children"] = [[int(x) for x in ch] for ch in T.children]
     e["edges"] = [[int(a), int(b)] for a, b in T.edges]
+    if ev.get("abandon", 0):
+        # history: a traversal of this very tree object is abandoned half way (and one in the other order too) before the ones that are judged
+        for how in ("DFS", "BFS"):
+            for k, _ in enumerate(T.traverse(how)):
+                if k >= 1:
+                    break
     e["bfs"] = [[int(a), -1 if b is None else int(b)] for a, b in T.traverse("BFS")]
     e["dfs"] = [[int(a), -1 if b is None else int(b)] for a, b in T.traverse("DFS")]
     return e
@@ -105,7 +111,7 @@ def _events(rng, kind, k, lengths_ok):
         over = rng.choice(overs)
         r = rng.random()
         base = {"over": over, "root": rng.randrange(1000), "avoid_boundary": 0, "nex": rng.choice([0, 0, 1, 2, 3]), "xseed": rng.randrange(10 ** 6),
-                "mode": "one", "as_attr": rng.randint(0, 1)}
+                "mode": "one", "as_attr": rng.randint(0, 1), "abandon": rng.choice([0, 0, 1])}
         if r < 0.55:
             base["op"] = "tree"
             if over == "vertices" and kind != "polyline":
